@@ -71,7 +71,11 @@ def check_search_with_offset(rep, crate):
         if e['kind'] == 'ret':
             exits.append((frozenset(e['pc']), e['value']))
         elif e['kind'] == 'break':
-            exits.append((frozenset(e['pc']), top))
+            # `break v` yields v as the value of the loop (which is then the function's value); a bare break leaves
+            # with whatever follows the loop
+            tu = T.unroot(top)
+            own = isinstance(tu, tuple) and tu and tu[0] == 'loopval' and tu[1] == nid
+            exits.append((frozenset(e['pc']), e['value'] if (e.get('value') is not None and own) else top))
     want_err = ('err', T.struct(DLE, {'offset': offset, 'limit': limit}))
     in_range = T.cmp('Le', H, limit)
     conv = T.cmp('Le', B, H)
@@ -298,6 +302,23 @@ def check_brute_sibling(rep, crate):
         rep.ok('FP-SIB', 'FP-SIB:err', where, 'same Err payload as the iterative search', fn=BRUTE)
     else:
         rep.bad('FP-SIB', 'FP-SIB:err', where, f'falls through to {T.show(top)}', T.show(want), fn=BRUTE)
+    # the cross-check in `search` compares the two siblings on the SAME arguments
+    sb = crate.body(SEARCH)
+    if sb is not None:
+        ev2 = Evaluator(crate)
+        ev2.eval_entry(sb)
+        args = (p(0), T.const(0), p(1), p(2))
+        a = T.root(T.call(BRUTE, *args))
+        b = T.root(T.call(SWO, *args))
+        want_c = T.tnot(T.eq0(T.sub(a, b)))
+        pans = [e for e in ev2.events if e['kind'] == 'panic' and e['depth'] == 0]
+        good = [e for e in pans if want_c in e['pc'] or T.tnot(T.eq0(T.sub(b, a))) in e['pc']]
+        if len(pans) == 1 and good:
+            rep.ok('FP-SIB', 'FP-SIB:call', loc(sb.raw), 'search asserts brute_force(supply, 0, limit, w) == search_with_offset(supply, 0, limit, w): same four arguments', fn=SEARCH)
+        else:
+            rep.bad('FP-SIB', 'FP-SIB:call', loc(sb.raw), 'debug cross-check of search fires when ' + ' | '.join(' && '.join(T.show(c) for c in e['pc'])[:200] for e in pans),
+                    f'exactly one assertion, under {T.show(want_c)}', fn=SEARCH,
+                    why='a cross-check on different arguments makes debug builds panic on well-formed input (or check nothing)')
 
 
 def check_default_service_time(rep, crate):
